@@ -497,6 +497,9 @@ type gen struct {
 	nSend    int
 	ilv      bool // interleave ops into reorg steps
 	reorgPct int
+	// high: the senders' nonces sit at the top of the uint64 range (first nonces MaxUint64-3..,
+	// "next" after MaxUint64 is 0): nonce arithmetic must not wrap a run around
+	high bool
 }
 
 func randCfg(r *rand.Rand) poolCfg {
@@ -544,6 +547,9 @@ func (g *gen) newTx(x *exec) *op {
 	switch {
 	case len(nonces) == 0:
 		nonce = uint64(r.Intn(4))
+		if g.high {
+			nonce = math.MaxUint64 - uint64(r.Intn(4))
+		}
 		o.Note = "first"
 	case pick < 32:
 		nonce = nonces[len(nonces)-1] + 1
@@ -590,6 +596,9 @@ func (g *gen) newTx(x *exec) *op {
 		return o
 	default:
 		nonce = uint64(r.Intn(8))
+		if g.high && r.Intn(2) == 0 {
+			nonce = math.MaxUint64 - uint64(r.Intn(6))
+		}
 		o.Note = "random-nonce"
 	}
 	// fee: aim at a priority
